@@ -421,3 +421,30 @@ def closure_terms_in(ev, env):
         if s["k"] == "assign" and s["rv"]["k"] == "agg" and s["rv"]["agg"] == "closure":
             out[s["rv"]["closure"]] = ev.rvalue(env, s["rv"], (bi, si))
     return out
+
+
+def final_deref_values(ev, env):
+    """for bodies that write through pointer arguments (`*out = v`): {pointer term: final
+    value of the pointee at the normal exit}"""
+    body = env.body
+    ptrs = set()
+    for bi, si, s in body.stmts():
+        if s["k"] == "assign" and s["place"]["proj"] and s["place"]["proj"][0]["k"] == "deref" and len(s["place"]["proj"]) == 1:
+            ptrs.add(s["place"]["l"])
+    for bi, t in body.calls():
+        d = t["dest"]
+        if d["proj"] and d["proj"][0]["k"] == "deref" and len(d["proj"]) == 1:
+            ptrs.add(d["l"])
+    out = {}
+    exits = body.exits()
+    for k in sorted(ptrs):
+        base = ev.lookup(env, (k, ()), (exits[0], None)) if exits else None
+        while base is not None and base[0] == "update" and base[2] and base[2][0] == ("deref",):
+            base = base[1]  # the pointer itself, not what was stored through it
+        vals = []
+        for e in exits:
+            v = ev._lookup_in_block(env, (k, (("deref",),)), e, None, frozenset())
+            if v not in vals:
+                vals.append(v)
+        out[base] = vals[0] if len(vals) == 1 else ("phi", tuple(vals))
+    return out
